@@ -6,6 +6,7 @@ import panics
 import pool2
 
 META = {
+    "thorough_extra": ["mocks", "server-only", "aws"],
     "level": "other",
     "explanation": "Structure of the accept path, decided on all paths: (C09.1) in every Accept::poll_accept impl (and DuplexIncoming::poll_next) an Err reaching the return place "
                    "- explicit Err(..), `?` residual, or an Err built inside a closure applied to the accepted item - roots only in the listener's own poll, never in a value "
